@@ -2,12 +2,15 @@
 import itertools
 import numpy as np
 
-RULE = ('random ragged arrays (1..6 rows, lengths 1..6, 30% equal-length, 1-D and (len,2) cells, int/float, '
-        'four constructor forms) x index expressions from the full read grammar (int, slice, list, ndarray, '
+RULE = ('random ragged arrays (1..6 rows, lengths 1..6, 30% equal-length, 1-D and (len,2) cells, int/float/bool/int8/float32/object, '
+        'ten constructor forms incl. 2-D ndarray, tuples, int32/tuple/list lengths, copy=False, error_checking=False, keywords; '
+        'index ndarrays/scalars as int64/int32/int16/uint8/intp, tuple containers, boolean row masks; size-boundary families '
+        '(>256 rows, rows >255, >65535 cells, >20000 rows)) x index expressions from the full read grammar (int, slice, list, ndarray, '
         '(int|slice|list, int|slice|list) tuples, ragged boolean mask; bounds -(len+2)..len+2, steps None,+-1,+-2,+-3) '
         '+ where / iteration / flatten / attributes; thorough adds exhaustive enumeration for total size <= 6; '
         'a case is non-trivial when the expected result is a non-empty value; distinct by canonical (array, op, index)')
-ASSUMPTIONS = ['numpy basic/fancy indexing of 1-D arrays and Python list indexing are the reference semantics of the '
+ASSUMPTIONS = ['the property speaks of the VALUES a read returns: whether a result aliases the internal flat data (a[i] and a[i, s] are views, upstream test_subragged_data_mapping relies on it; every other form returns a copy) is recorded as a tag, not judged; what is judged: a read changes neither the array (_data, lengths, row view) nor the index objects, and the same index object read twice gives the same result',
+               'numpy basic/fancy indexing of 1-D arrays and Python list indexing are the reference semantics of the '
                'list-of-rows oracle (Model.PySlice is tied to CPython slice.indices exhaustively each run)',
                'cells are atomic: the model is parametric in the cell type, cell ids stand for cell values',
                'the staged code is compared with the repaired variant of Model.Ragged (getItemV true) on every case']
@@ -27,22 +30,39 @@ CTORS = ['nested-list', 'nested-array', 'flat-lengths-list', 'flat-lengths-array
 # building the two sides
 
 
+NP_DT = {'int': int, 'float': float, 'bool': bool, 'int8': np.int8, 'float32': np.float32, 'object': object}
+ROW_CTORS = ('nested-list', 'nested-array', 'nested-tuple', 'ndarray-2d', 'flat-single-row')
+FAST_CTORS = ('flat-lengths-array', 'flat-lengths-int32')
+
+
 def cell_value(k, width, dtype):
-    v = 10 * k + 1 if dtype == 'int' else k + 0.5
+    """distinct where the dtype allows it, exact in every dtype"""
+    if dtype in ('int', 'object'):
+        v = 10 * k + 1
+    elif dtype == 'int8':
+        v = (k % 120) + 1
+    elif dtype == 'bool':
+        v = bool((k * k + k // 3) % 2)
+    else:
+        v = k + 0.5
     if width == 0:
         return v
+    if dtype == 'bool':
+        return [v, not v]
+    if dtype == 'int8':
+        return [v, -v]
     return [v, v + 1000]
 
 
 def build_rows(arr):
     """list of per-row numpy arrays (the specification side) and the flat cell list"""
     lengths, width, dtype = arr['lengths'], arr['width'], arr['dtype']
-    np_dt = int if dtype == 'int' else float
+    np_dt = NP_DT[dtype]
     flat = [cell_value(k, width, dtype) for k in range(sum(lengths))]
+    data = np.array(flat, dtype=np_dt).reshape((len(flat),) if width == 0 else (len(flat), width))
     rows, k = [], 0
     for L in lengths:
-        shape = (L,) if width == 0 else (L, width)
-        rows.append(np.array(flat[k:k + L], dtype=np_dt).reshape(shape))
+        rows.append(data[k:k + L].copy())
         k += L
     return rows, flat
 
@@ -51,30 +71,54 @@ def build_ra(arr):
     from enspara import ra
     rows, flat = build_rows(arr)
     ctor = arr['ctor']
-    np_dt = int if arr['dtype'] == 'int' else float
+    kw = arr.get('kw', 'none')
+    extra = {}
+    if kw == 'nocheck':
+        extra['error_checking'] = False
+    if kw == 'copy-false' and ctor.startswith('flat-lengths'):
+        extra['copy'] = False
     if ctor == 'nested-list':
-        return ra.RaggedArray([r.tolist() for r in rows])
+        return ra.RaggedArray([r.tolist() for r in rows], **extra)
     if ctor == 'nested-array':
-        return ra.RaggedArray([r.copy() for r in rows])
-    data = np.array(flat, dtype=np_dt)
-    if ctor == 'flat-lengths-list':
-        return ra.RaggedArray(data, lengths=list(arr['lengths']))
-    if ctor == 'flat-lengths-array':
-        return ra.RaggedArray(data, lengths=np.array(arr['lengths'], dtype=int))
-    raise ValueError(ctor)
+        return ra.RaggedArray([r.copy() for r in rows], **extra)
+    if ctor == 'nested-tuple':
+        return ra.RaggedArray(tuple(r.copy() for r in rows), **extra)
+    if ctor == 'ndarray-2d':
+        return ra.RaggedArray(np.stack(rows), **extra)
+    data = np.concatenate(rows)
+    if ctor == 'flat-single-row':
+        return ra.RaggedArray(data, **extra)
+    L = arr['lengths']
+    lengths = {'flat-lengths-list': lambda: list(L), 'flat-lengths-tuple': lambda: tuple(L),
+               'flat-lengths-array': lambda: np.array(L, dtype=int),
+               'flat-lengths-int32': lambda: np.array(L, dtype=np.int32),
+               'flat-list-lengths-list': lambda: list(L)}[ctor]()
+    if ctor == 'flat-list-lengths-list':
+        data = data.tolist()
+    if kw == 'keywords':
+        return ra.RaggedArray(array=data, lengths=lengths)
+    return ra.RaggedArray(data, lengths=lengths, **extra)
+
+
+IDX_DT = {'int64': np.int64, 'int32': np.int32, 'int16': np.int16, 'uint8': np.uint8, 'intp': np.intp}
 
 
 def py_index(idx, mask_ra=None):
     """JSON index description -> the Python object passed to __getitem__"""
     t = idx['t']
     if t == 'int':
-        return np.int64(idx['v']) if idx.get('np') else int(idx['v'])
+        np_t = idx.get('np')
+        if not np_t:
+            return int(idx['v'])
+        return IDX_DT['int64' if np_t is True else np_t](idx['v'])
     if t == 'slice':
         return slice(*idx['v'])
     if t == 'list':
-        return list(idx['v'])
+        return tuple(idx['v']) if idx.get('c') == 'tuple' else list(idx['v'])
     if t == 'arr':
-        return np.array(idx['v'], dtype=int)
+        return np.array(idx['v'], dtype=IDX_DT[idx.get('dt', 'int64')])
+    if t == 'boolrows':
+        return np.array(idx['v'], dtype=bool)
     if t == 'tuple':
         return (py_index(idx['r']), py_index(idx['c']))
     if t == 'mask':
@@ -84,7 +128,7 @@ def py_index(idx, mask_ra=None):
 
 def build_mask(arr, m):
     from enspara import ra
-    if arr['ctor'].startswith('nested'):
+    if arr['ctor'] in ROW_CTORS:
         return ra.RaggedArray([np.array(r, dtype=bool) for r in m])
     return ra.RaggedArray(np.array([b for r in m for b in r], dtype=bool),
                           lengths=np.array([len(r) for r in m], dtype=int))
@@ -110,7 +154,7 @@ def oracle(rows, op, idx):
         return 'arr', np.concatenate(rows).flatten()
     if op == 'attrs':
         lengths = [len(r) for r in rows]
-        starts = [int(sum(lengths[:i])) for i in range(len(lengths))]
+        starts = [int(x) for x in np.concatenate([[0], np.cumsum(lengths)[:-1]])]
         second = lengths[0] if all(l == lengths[0] for l in lengths) else None
         shape = (len(rows), second) + tuple(rows[0].shape[1:])
         return 'attrs', {'lengths': lengths, 'starts': starts, 'shape': list(shape),
@@ -129,6 +173,10 @@ def oracle(rows, op, idx):
         return 'rows', rows[slice(*idx['v'])]
     if t in ('list', 'arr'):
         return 'rows', [rows[i] for i in idx['v']]
+    if t == 'boolrows':
+        if len(idx['v']) != len(rows):
+            raise IndexError('boolean index did not match')
+        return 'rows', [r for r, b in zip(rows, idx['v']) if b]
     if t == 'mask':
         parts = [rows[i][np.array(m, dtype=bool)] for i, m in enumerate(idx['v'])]
         return 'arr', np.concatenate(parts)
@@ -192,7 +240,7 @@ def canon_impl(kind, res, cellshape):
         if a.shape == cellshape:
             return 'ok', a.tolist()
         if a.shape == (1,) + cellshape:       # a 1-element array and a scalar are the same value
-            return 'ok', a[0].tolist()
+            return 'ok', np.asarray(a[0]).tolist()
         return 'bad', 'element access returned shape %s' % (a.shape,)
     return 'ok', a.tolist()
 
@@ -201,7 +249,7 @@ def expected_kind(idx):
     t = idx['t']
     if t == 'int':
         return 'arr'
-    if t in ('slice', 'list', 'arr'):
+    if t in ('slice', 'list', 'arr', 'boolrows'):
         return 'rows'
     if t == 'mask':
         return 'arr'
@@ -334,28 +382,54 @@ def rand_list(rng, L, k=None, oob=0.1):
     return [int(x) for x in rng.integers(lo, hi, size=k)]
 
 
-def rand_part(rng, L):
+SCALAR_DT = ['int64', 'int32', 'int16', 'intp']
+
+
+def rand_part(rng, L, in_tuple=True):
     u = rng.random()
     if u < 0.25:
         v = int(rng.integers(-(L + 2), L + 3)) if rng.random() < 0.25 else int(rng.integers(-L, L))
-        return {'t': 'int', 'v': v, 'np': bool(rng.random() < 0.3)}
+        p = {'t': 'int', 'v': v, 'np': False}
+        w = rng.random()
+        if w < 0.4:
+            p['np'] = SCALAR_DT[int(rng.integers(0, len(SCALAR_DT)))]
+        elif w < 0.5 and v >= 0:
+            p['np'] = 'uint8'
+        return p
     if u < 0.65:
         return S(rand_slice(rng, L))
-    return Lst(rand_list(rng, L), arr=bool(rng.random() < 0.5))
+    p = Lst(rand_list(rng, L), arr=bool(rng.random() < 0.5))
+    if p['t'] == 'arr':
+        w = rng.random()
+        if w < 0.5:
+            p['dt'] = ['int32', 'int16', 'intp'][int(rng.integers(0, 3))]
+        elif w < 0.7 and all(x >= 0 for x in p['v']):
+            p['dt'] = 'uint8'
+    elif in_tuple and rng.random() < 0.25:
+        p['c'] = 'tuple'          # a tuple as a component of the 2-D index
+    return p
 
 
 def rand_index(rng, lengths):
     n, Lm = len(lengths), max(lengths)
     u = rng.random()
+    if u < 0.22:
+        return rand_part(rng, n, in_tuple=False)
     if u < 0.25:
-        return rand_part(rng, n)
+        p = [0.0, 0.3, 0.7, 1.0][int(rng.integers(0, 4))]
+        return {'t': 'boolrows', 'v': [bool(rng.random() < p) for _ in range(n)]}
     if u < 0.33:
         return {'t': 'mask', 'v': rand_mask(rng, lengths)}
     r = rand_part(rng, n)
     c = rand_part(rng, Lm if rng.random() < 0.7 else min(lengths))
     if r['t'] in ('list', 'arr') and c['t'] in ('list', 'arr'):
         k = len(r['v'])
-        c = Lst(rand_list(rng, min(lengths) if rng.random() < 0.7 else Lm, k=k), arr=c['t'] == 'arr')
+        c2 = Lst(rand_list(rng, min(lengths) if rng.random() < 0.7 else Lm, k=k), arr=c['t'] == 'arr')
+        if c.get('dt') and (c['dt'] != 'uint8' or all(x >= 0 for x in c2['v'])):
+            c2['dt'] = c['dt']
+        if c.get('c'):
+            c2['c'] = c['c']
+        c = c2
     return T(r, c)
 
 
@@ -364,15 +438,117 @@ def rand_mask(rng, lengths):
     return [[bool(rng.random() < p) for _ in range(L)] for L in lengths]
 
 
+ALL_CTORS = CTORS + ['nested-tuple', 'ndarray-2d', 'flat-lengths-tuple', 'flat-lengths-int32',
+                     'flat-list-lengths-list', 'flat-single-row']
+
+
 def rand_array(rng):
     n = int(rng.integers(1, 7))
     if rng.random() < 0.3:
         lengths = [int(rng.integers(1, 7))] * n
     else:
         lengths = [int(x) for x in rng.integers(1, 7, size=n)]
-    return {'lengths': lengths, 'width': 2 if rng.random() < 0.3 else 0,
-            'dtype': 'int' if rng.random() < 0.5 else 'float',
-            'ctor': CTORS[int(rng.integers(0, 4))]}
+    equal = len(set(lengths)) == 1
+    u = rng.random()
+    if u < 0.6:
+        ctor = CTORS[int(rng.integers(0, 4))]
+    else:
+        ok = [c for c in ALL_CTORS if (c != 'ndarray-2d' or equal) and c != 'flat-single-row']
+        ctor = ok[int(rng.integers(0, len(ok)))]
+    # data dtype: the containers that hand Python scalars to numpy only carry the default dtypes
+    v = rng.random()
+    if v < 0.7 or ctor in ('nested-list', 'flat-list-lengths-list'):
+        dtype = 'int' if rng.random() < 0.5 else ('float' if v < 0.9 else 'bool')
+    else:
+        dtype = ['bool', 'int8', 'float32', 'object'][int(rng.integers(0, 4))]
+    kw = 'none'
+    if rng.random() < 0.2:
+        kw = ['nocheck', 'copy-false', 'keywords'][int(rng.integers(0, 3))]
+        if kw == 'keywords' and not ctor.startswith('flat-l'):
+            kw = 'nocheck'
+    arr = {'lengths': lengths, 'width': 2 if rng.random() < 0.3 else 0, 'dtype': dtype, 'ctor': ctor}
+    if n == 1 and arr['width'] == 0 and rng.random() < 0.3 and ctor.startswith('flat'):
+        arr['ctor'] = 'flat-single-row'       # RaggedArray(flat) without lengths: one row
+    if kw != 'none':
+        arr['kw'] = kw
+    return arr
+
+
+# ----------------------------------------------------------------------------------------------
+# size boundaries: more than 255/256 rows, rows longer than 255, more than 65535 cells, more than 20000 rows
+# (error checking switched off by __init__); index values beyond the range of narrow integer dtypes
+
+def big_families(rng, thorough):
+    """(arr, [(op, idx)], use_model)"""
+    fams = []
+    full = S([None, None, None])
+
+    def reads(lengths, extra=()):
+        n, Lm = len(lengths), max(lengths)
+        long_row = int(np.argmax(lengths))
+        out = [('attrs', None), ('flatten', None)]
+        rr = sorted(set(x for x in (0, 1, 127, 128, 254, 255, 256, 257, n - 2, n - 1) if 0 <= x < n))
+        cc = sorted(set(x for x in (0, 127, 128, 254, 255, 256, 257, Lm - 1) if 0 <= x < Lm))
+        for r in rr[-4:]:
+            out.append(('get', I(r)))
+            out.append(('get', T(I(r), I(-1))))
+            out.append(('get', T(I(r), S([None, None, -3]))))
+        out.append(('get', I(n)))
+        out.append(('get', I(-n)))
+        out.append(('get', T(I(long_row), I(Lm))))          # one past the end of the longest row
+        out.append(('get', T(I(long_row), I(Lm - 1))))
+        out.append(('get', S([max(0, n - 300), None, 7])))
+        out.append(('get', {'t': 'arr', 'v': rr, 'dt': 'int32'}))
+        out.append(('get', {'t': 'arr', 'v': rr[::-1], 'dt': 'intp'}))
+        if n - 1 <= 255:
+            out.append(('get', {'t': 'arr', 'v': rr, 'dt': 'uint8'}))
+        out.append(('get', T(S([None, None, max(1, n // 5)]), S([-2, None, None]))))
+        out.append(('get', T(S([-3, None, None]), S([None, None, -1]))))
+        out.append(('get', T(full, I(0))))
+        out.append(('get', T({'t': 'arr', 'v': rr, 'dt': 'int32'}, S([None, 3, None]))))
+        out.append(('get', T(I(long_row), {'t': 'arr', 'v': cc, 'dt': 'int32'})))
+        out.append(('get', T(I(long_row), {'t': 'arr', 'v': [-x - 1 for x in cc], 'dt': 'int16' if Lm < 30000 else 'int32'})))
+        pr = [rr[-1], long_row, rr[0], long_row]
+        pc = [lengths[rr[-1]] - 1, Lm - 1, 0, -Lm]
+        out.append(('get', T({'t': 'arr', 'v': pr, 'dt': 'int32'}, {'t': 'arr', 'v': pc, 'dt': 'int32'})))
+        out.append(('get', T(Lst(pr), Lst(pc))))
+        # a mask whose True cells lie far apart (last cell of the array included)
+        m = [[False] * L for L in lengths]
+        m[0][0] = True
+        m[-1][-1] = True
+        m[long_row][Lm - 1] = True
+        m[long_row][Lm // 2] = True
+        out.append(('where', {'t': 'mask', 'v': m}))
+        out.append(('get', {'t': 'mask', 'v': m}))
+        return out + list(extra)
+
+    def arr_of(lengths, ctor, dtype='int', width=0):
+        return {'lengths': [int(x) for x in lengths], 'width': width, 'dtype': dtype, 'ctor': ctor}
+
+    # > 256 rows
+    L = [int(x) for x in rng.integers(1, 4, size=300)]
+    fams.append((arr_of(L, 'flat-lengths-array'), reads(L) + [('iter', None)], True, 'rows>256'))
+    fams.append((arr_of(L, 'nested-array', 'float'), reads(L), True, 'rows>256'))
+    fams.append((arr_of([2] * 260, 'flat-lengths-int32', 'int8'), reads([2] * 260), True, 'rows>256'))
+    # rows longer than 255 / 256
+    L = [300, 1, 257, 256, 255]
+    fams.append((arr_of(L, 'flat-lengths-list'), reads(L) + [('iter', None)], True, 'row-length>255'))
+    fams.append((arr_of([258] * 3, 'flat-lengths-array', 'float32', 2), reads([258] * 3), True, 'row-length>255'))
+    # > 65535 cells
+    L = [40000, 30000, 5]
+    fams.append((arr_of(L, 'flat-lengths-array'), reads(L), False, 'cells>65535'))
+    L = [250] * 280
+    fams.append((arr_of(L, 'flat-lengths-array'), reads(L), False, 'cells>65535'))
+    if thorough:
+        L = [int(x) for x in rng.integers(200, 300, size=300)]
+        fams.append((arr_of(L, 'nested-array'), reads(L), False, 'cells>65535'))
+        L = [int(x) for x in rng.integers(1, 6, size=1000)]
+        fams.append((arr_of(L, 'flat-lengths-list', 'float'), reads(L) + [('iter', None)], True, 'rows>256'))
+    # > 20000 rows: __init__ skips _ensure_ragged_data
+    L = [1 + (i % 2) for i in range(20001)]
+    fams.append((arr_of(L, 'nested-array'), reads(L), False, 'rows>20000'))
+    fams.append((arr_of(L, 'flat-lengths-array'), reads(L), False, 'rows>20000'))
+    return fams
 
 
 # ----------------------------------------------------------------------------------------------
@@ -391,7 +567,7 @@ K_RECT = 'rect-fastpath-multidim-cells'
 
 def is_fast(arr):
     L = arr['lengths']
-    return arr['ctor'] == 'flat-lengths-array' and all(x == L[0] for x in L)
+    return arr['ctor'] in FAST_CTORS and all(x == L[0] for x in L)
 
 
 def result_fast(idx, mresp):
@@ -425,13 +601,14 @@ def rect_class(arr, op, idx, mresp):
     return op == 'get' and result_fast(idx, mresp)
 
 
-def finding_keys(arr, op, idx, mresp=None):
+def finding_keys(arr, op, idx, mresp=None, rows=None):
     """all known-finding classes the input belongs to, in priority order"""
     keys = []
     if op == 'get' and idx['t'] == 'tuple':
         n = len(arr['lengths'])
         r, c = idx['r'], idx['c']
-        rows, _ = build_rows(arr)
+        if rows is None:
+            rows, _ = build_rows(arr)
         sel = None
         if r['t'] == 'slice':
             a, b, s = r['v']
@@ -468,11 +645,15 @@ def finding_keys(arr, op, idx, mresp=None):
 # model side
 
 def strip(idx):
+    """the index as the model sees it: containers and integer dtypes do not matter, a boolean row mask is the list
+    of the positions of its True entries"""
     if idx is None:
         return None
     if idx['t'] == 'tuple':
         return {'t': 'tuple', 'r': strip(idx['r']), 'c': strip(idx['c'])}
-    return {k: v for k, v in idx.items() if k != 'np'}
+    if idx['t'] == 'boolrows':
+        return {'t': 'arr', 'v': [i for i, b in enumerate(idx['v']) if b]}
+    return {k: v for k, v in idx.items() if k not in ('np', 'dt', 'c', 'nd')}
 
 
 def probe_repaired(ctx):
@@ -498,7 +679,7 @@ def probe_repaired(ctx):
 
 def model_request(arr, op, idx):
     return {'op': 'C05.' + op, 'lengths': arr['lengths'], 'fast': is_fast(arr), 'fixed': True,
-            'ctor': 'rows' if arr['ctor'].startswith('nested') else 'flat', 'idx': strip(idx)}
+            'ctor': 'rows' if arr['ctor'] in ROW_CTORS else 'flat', 'idx': strip(idx)}
 
 
 def model_canon(arr, op, idx, resp, flat):
@@ -544,13 +725,22 @@ class Impl:
 
     def _snap(self):
         a = self.a
-        return (a._data.tobytes(), a.lengths.tobytes(), repr([np.asarray(r).tolist() for r in a._array]))
+        rows = a._array
+        if isinstance(rows, np.ndarray) and rows.dtype != object:
+            view = rows.tobytes()
+        else:
+            try:
+                view = (tuple(len(r) for r in rows), np.concatenate(list(rows)).tobytes() if len(rows) else b'')
+            except Exception:  # noqa
+                view = b'|'.join(np.asarray(r).tobytes() for r in rows)
+        return (a._data.tobytes(), a.lengths.tobytes(), len(rows), view)
 
-    def run(self, op, idx):
+    def run(self, op, idx, twice=False):
         from enspara import ra
         if self.ctor_error:
             return dict(self.ctor_error)
         a = self.a
+        alias = None
         try:
             if op == 'iter':
                 res = ('ok', [np.asarray(x).tolist() for x in a])
@@ -562,7 +752,10 @@ class Impl:
                               'shape': [None if x is None else int(x) for x in sh], 'size': int(a.size),
                               'dtype': str(a.dtype), 'len': len(a)})
             elif op == 'where':
-                w = ra.where(build_mask(self.arr, idx['v']))
+                if idx.get('nd'):
+                    w = ra.where(np.array(idx['v'], dtype=bool))      # plain ndarray: falls back to np.where
+                else:
+                    w = ra.where(build_mask(self.arr, idx['v']))
                 if len(w) == 2:
                     res = ('ok', [[int(x) for x in w[0]], [int(x) for x in w[1]]])
                 else:
@@ -576,6 +769,13 @@ class Impl:
                     res = ('bad', 'the read modified the index object')
                 else:
                     res = canon_impl(expected_kind(idx), out, self.cellshape)
+                    if isinstance(out, np.ndarray):
+                        alias = bool(np.shares_memory(out, a._data))
+                    if twice and res[0] == 'ok':
+                        # same array, same index OBJECT, second call
+                        res2 = canon_impl(expected_kind(idx), a[pyidx], self.cellshape)
+                        if res2 != res:
+                            res = ('bad', 'reading twice with the same index object gave %r then %r' % (res[1], res2[1]))
         except Exception as e:  # noqa
             res = None
             err = {'error': err_kind(e), 'exc': type(e).__name__}
@@ -583,12 +783,17 @@ class Impl:
             return {'bad': 'the read modified the array'}
         if res is None:
             return err
-        return {res[0]: res[1]}
+        out = {res[0]: res[1]}
+        if alias is not None:
+            out['alias'] = alias
+        return out
 
 
 def _idx_bytes(x):
     if isinstance(x, tuple):
         return tuple(_idx_bytes(y) for y in x)
+    if isinstance(x, list):
+        return repr(x)
     if isinstance(x, np.ndarray):
         return x.tobytes()
     if hasattr(x, '_data'):
@@ -604,13 +809,24 @@ def run_oracle_rows(rows, op, idx):
     return {'ok': canon_expected(kind, val)}
 
 
+def _part_tags(p):
+    out = []
+    if p['t'] == 'arr':
+        out.append('index-ndarray-' + p.get('dt', 'int64'))
+    if p['t'] == 'int' and p.get('np'):
+        out.append('index-scalar-' + ('int64' if p['np'] is True else p['np']))
+    if p['t'] == 'list' and p.get('c') == 'tuple':
+        out.append('index-tuple-container')
+    return out
+
+
 def idx_tags(op, idx):
     if op != 'get':
-        return ['op=' + op]
+        return ['op=' + op + ('-ndarray' if idx and idx.get('nd') else '')]
     t = idx['t']
     if t != 'tuple':
-        return ['get[%s]' % t]
-    tags = ['get[%s,%s]' % (idx['r']['t'], idx['c']['t'])]
+        return ['get[%s]' % t] + _part_tags(idx)
+    tags = ['get[%s,%s]' % (idx['r']['t'], idx['c']['t'])] + _part_tags(idx['r']) + _part_tags(idx['c'])
     for nm, p in (('row', idx['r']), ('col', idx['c'])):
         if p['t'] == 'slice':
             a, b, s = p['v']
@@ -623,11 +839,13 @@ def idx_tags(op, idx):
     return tags
 
 
-def judge(ctx, impl, op, idx, mresp, record=True):
-    """evaluate the predicate on the real output, then compare the model with the real output"""
+def judge(ctx, impl, op, idx, mresp, record=True, extra_tags=(), twice=True):
+    """evaluate the predicate on the real output, then compare the model with the real output
+    (mresp None = family too large for the model: predicate only)"""
     arr = impl.arr
     o = run_oracle_rows(impl.rows, op, idx)
-    i = impl.run(op, idx)
+    i = impl.run(op, idx, twice=twice)
+    alias = i.pop('alias', None)
     if op == 'attrs' and 'ok' in i:
         # dtype is compared with the oracle only (cells are abstract in the model)
         dt = i['ok'].pop('dtype')
@@ -637,7 +855,7 @@ def judge(ctx, impl, op, idx, mresp, record=True):
     elif op == 'attrs':
         o['ok'].pop('dtype')
     case = {'arr': arr, 'op': op, 'idx': idx}
-    keys = finding_keys(arr, op, idx, mresp)
+    keys = finding_keys(arr, op, idx, mresp, impl.rows)
     if 'error' in o:
         holds = 'error' in i
     else:
@@ -650,6 +868,14 @@ def judge(ctx, impl, op, idx, mresp, record=True):
                                     'expect-error' if 'error' in o else 'expect-value']
         if 'error' in i:
             tags.append('impl-' + i['error'])
+        if alias is not None:
+            # recorded, not judged: the property speaks of the values returned (see ASSUMPTIONS)
+            tags.append('result-is-view-of-data' if alias else 'result-is-copy')
+        if op == 'get' and twice:
+            tags.append('read-twice-same-index-object')
+        tags += list(extra_tags)
+        if arr.get('kw', 'none') != 'none':
+            tags.append('ctor-kw=' + arr['kw'])
         for k in keys:
             tags.append('formerly-failing-class:' + k)
         ctx.case(case, nontrivial=nontrivial, tags=tags)
@@ -663,6 +889,9 @@ def judge(ctx, impl, op, idx, mresp, record=True):
         # nothing is excused: the input classes the pre-fix tree got wrong are tags only
         ctx.violation(what[:600], dict(case, got=i, expected=o), key=None)
     # correspondence with the model (repaired variant)
+    if mresp is None:
+        ctx.skip('model-skipped-large-array')
+        return
     m = model_canon(arr, op, idx, mresp, impl.flat)
     ii = {k: v for k, v in i.items() if k != 'exc'}
     if m != ii:
@@ -690,7 +919,7 @@ def slice_scope(ctx):
     ctx.note('slice_scope_exhaustive', {'n_max': 6, 'cases': len(reqs), 'mismatches': bad})
 
 
-def run_batch(ctx, batch, record=True):
+def run_batch(ctx, batch, record=True, twice=True):
     """batch: list of (arr, [(op, idx), …])"""
     reqs = [model_request(arr, op, idx) for arr, cases in batch for op, idx in cases]
     resp = ctx.driver(reqs)
@@ -698,7 +927,7 @@ def run_batch(ctx, batch, record=True):
     for arr, cases in batch:
         impl = Impl(arr)
         for op, idx in cases:
-            judge(ctx, impl, op, idx, resp[k], record=record)
+            judge(ctx, impl, op, idx, resp[k], record=record, twice=twice)
             k += 1
 
 
@@ -715,6 +944,8 @@ def run(ctx):
         arr = rand_array(rng)
         cases = list(FIXED_OPS)
         cases.append(('where', {'t': 'mask', 'v': rand_mask(rng, arr['lengths'])}))
+        if len(set(arr['lengths'])) == 1 and rng.random() < 0.5:
+            cases.append(('where', {'t': 'mask', 'v': rand_mask(rng, arr['lengths']), 'nd': True}))
         for _ in range(8):
             cases.append(('get', rand_index(rng, arr['lengths'])))
         batch.append((arr, cases))
@@ -722,6 +953,12 @@ def run(ctx):
             run_batch(ctx, batch)
             batch = []
     run_batch(ctx, batch)
+    # size boundaries
+    for arr, cases, use_model, tag in big_families(rng, ctx.thorough):
+        impl = Impl(arr)
+        resp = ctx.driver([model_request(arr, op, idx) for op, idx in cases]) if use_model else [None] * len(cases)
+        for (op, idx), r in zip(cases, resp):
+            judge(ctx, impl, op, idx, r, extra_tags=('size:' + tag,))
     # exhaustive small scope
     maxtot = ctx.n(3, 6)
     variants = [(w, d, c) for w in (0, 2) for d in ('int', 'float') for c in CTORS]
@@ -743,7 +980,7 @@ def run(ctx):
                 cases += FIXED_OPS
                 nex += len(cases)
                 for j in range(0, len(cases), 20000):
-                    run_batch(ctx, [(arr, cases[j:j + 20000])], record=(total <= 3))
+                    run_batch(ctx, [(arr, cases[j:j + 20000])], record=(total <= 3), twice=False)
     ctx.tag('exhaustive-small-scope', nex)
     ctx.note('exhaustive_scope', {'total_size_max': maxtot, 'cases': nex})
 
